@@ -59,17 +59,33 @@ def gen_merge_guards(items):
                  'segment_updater.rs::end_merge: a delete older than the committed opstamp triggers advance_deletes on the merged segment before the swap')
     items.append(reconciles)
 
-    def live_nulls_scan():
+    def scan_shapes():
         body = fn_body(mg, 'segment_has_live_nulls')
-        a = pos(body, r'if\s+col\s*\.\s*get_cardinality\(\)\s*!=\s*columnar::Cardinality::Optional\s*\{\s*return\s+false\s*;\s*\}')
-        b = pos(body, r'if\s*!\s*reader\s*\.\s*has_deletes\(\)\s*\{\s*return\s+true\s*;\s*\}')
         c = pos(body, r'reader\s*\.\s*doc_ids_alive\(\)\s*\.\s*any\(\s*\|\s*doc_id\s*\|\s*col\s*\.\s*first\(\s*doc_id\s*\)\s*\.\s*is_none\(\)\s*\)\s*$')
         nret = len(re.findall(r'\breturn\b', body))
         nif = len(re.findall(r'\bif\b', body))
-        v = 1 if (a is not None and b is not None and c is not None and a < b < c and nret == 2 and nif == 2) else 0
-        return D('LIVE_NULLS_SCAN_SHAPE', v,
-                 'merger.rs::segment_has_live_nulls: non-Optional => false; no deletes => true; else any alive doc with first() == None (nothing else)')
+        # shape of the pinned tree: non-Optional => false; no deletes => true; else scan alive docs
+        a = pos(body, r'if\s+col\s*\.\s*get_cardinality\(\)\s*!=\s*columnar::Cardinality::Optional\s*\{\s*return\s+false\s*;\s*\}')
+        b = pos(body, r'if\s*!\s*reader\s*\.\s*has_deletes\(\)\s*\{\s*return\s+true\s*;\s*\}')
+        old = (a is not None and b is not None and c is not None and a < b < c and nret == 2 and nif == 2)
+        # repaired shape: only Full => false; Optional without deletes => true; else scan alive docs
+        l = pos(body, r'let\s+cardinality\s*=\s*col\s*\.\s*get_cardinality\(\)\s*;')
+        a2 = pos(body, r'if\s+cardinality\s*==\s*columnar::Cardinality::Full\s*\{\s*return\s+false\s*;\s*\}')
+        b2 = pos(body, r'if\s+cardinality\s*==\s*columnar::Cardinality::Optional\s*&&\s*!\s*reader\s*\.\s*has_deletes\(\)\s*\{\s*return\s+true\s*;\s*\}')
+        new = (l is not None and a2 is not None and b2 is not None and c is not None and l < a2 < b2 < c and nret == 2 and nif == 2)
+        return old, new
+
+    def live_nulls_scan():
+        old, new = scan_shapes()
+        return D('LIVE_NULLS_SCAN_SHAPE', 1 if (old or new) else 0,
+                 'merger.rs::segment_has_live_nulls: cardinality test, no-deletes shortcut for Optional, else any alive doc with first() == None (nothing else)')
     items.append(live_nulls_scan)
+
+    def live_nulls_multivalued():
+        old, new = scan_shapes()
+        return D('LIVE_NULLS_SCANS_MULTIVALUED', 1 if new else 0,
+                 'merger.rs::segment_has_live_nulls: only a Full column is exempt from the scan (0: every non-Optional column is, the pinned tree)')
+    items.append(live_nulls_multivalued)
 
     def stack_guard():
         body = fn_body(mg, 'is_disjunct_and_sorted_on_sort_property')
